@@ -457,7 +457,7 @@ def write_evidence(prop, tier, seed, level, coverage, assumptions, wall, violati
 # DeltioActors model-checking runs
 # --------------------------------------------------------------------------------------
 def turns_mc(workdir, name, ops, switches=None, invariants=("InvCore", "InvRest", "InvNoDeadAttached", "InvMapsLive", "InvAcceptedPosted"),
-             workers=8, timeout=900):
+             workers=8, timeout=900, max_expiries=0):
     """MCTurns: concurrent client processes over the core contract at turn granularity.
     ops: dict process id -> TLA record text of its operation."""
     workdir = os.path.abspath(workdir)
@@ -470,7 +470,7 @@ def turns_mc(workdir, name, ops, switches=None, invariants=("InvCore", "InvRest"
     if switches:
         sw.update(switches)
     lines = ["SPECIFICATION Spec", "CHECK_DEADLOCK FALSE", "CONSTANTS", "  SecMs = 1", "  MinAckSec = 2", "  MaxModSec = 4",
-             "  Slack = 0", "  Gran = 0", "  Procs = %s" % tla_value(set(ops.keys())), "  Op <- OpDef"]
+             "  Slack = 0", "  Gran = 0", "  Procs = %s" % tla_value(set(ops.keys())), "  Op <- OpDef", "  MaxExpiries = %d" % max_expiries]
     for k, v in sw.items():
         lines.append("  %s = %s" % (k, tla_value(v)))
     lines.append("INVARIANT " + " ".join(invariants))
@@ -497,7 +497,7 @@ REPAIRED = dict(DeleteDrainsMailbox=True, ClosedMeansNotFound=True, PullWatchesD
 
 
 def actors_mc(workdir, name, procs, subs=("s1",), cap=2, switches=None, invariants=(), allow_cancel=(),
-              init_attached=("s1",), backlog=0, max_expire=1, workers=8, timeout=900, properties=()):
+              init_attached=("s1",), backlog=0, max_expire=1, workers=8, timeout=900, properties=(), spec="Spec"):
     """procs: dict process id -> (kind, target subscription). Returns dict(stats, error, out)."""
     workdir = os.path.abspath(workdir)
     os.makedirs(workdir, exist_ok=True)
@@ -511,7 +511,7 @@ def actors_mc(workdir, name, procs, subs=("s1",), cap=2, switches=None, invarian
     sw = dict(REPAIRED)
     if switches:
         sw.update(switches)
-    lines = ["SPECIFICATION Spec", "CONSTANTS",
+    lines = ["SPECIFICATION " + spec, "CONSTANTS",
              "  Subs = %s" % tla_value(set(subs)),
              "  Procs = %s" % tla_value(set(procs.keys())),
              "  Kind <- KindDef", "  Target <- TargetDef",
